@@ -80,6 +80,14 @@ def jobs(tier):
                 continue
             out.append({"prop": PROP, "cfg": cfg, "order": "asc", "base": "B1", "scripts": A.stamp(sc),
                         "opts": {"users_first": True}})
+    # name re-use (same name, new object): remove and re-create, with the events delivered in any order
+    reuse = [[["delete", "m"], ["mkdir", "m"]], [["delete", "a"], ["create", "a"]], [["rename", "a", "x"], ["create", "a"]],
+             [["rename", "m", "m2"], ["mkdir", "m"]], [["delete", "m"], ["create", "m"]]]
+    for cfg in cfgs:
+        for h in reuse:
+            for sc in ([h, []], [[], h]):
+                out.append({"prop": PROP, "cfg": cfg, "order": "asc", "base": "B4", "scripts": A.stamp(sc),
+                            "opts": {"users_first": True}})
     return out
 
 
